@@ -1,0 +1,45 @@
+//go:build verif
+// +build verif
+
+package capnp
+
+// VerifPtrInfo is a read-only view of the unexported fields of a Ptr, used by the
+// verification harness in /verif to compare pointers with its model exactly.
+type VerifPtrInfo struct {
+	Valid        bool
+	Seg          SegmentID
+	Off          uint32
+	LenOrCap     uint32
+	DataSize     uint32
+	PointerCount uint16
+	DepthLimit   uint64
+	Kind         int // 0 struct, 1 list, 2 interface
+	Composite    bool
+	BitList      bool
+	ListMember   bool
+}
+
+// VerifInfo returns the view of p.
+func (p Ptr) VerifInfo() VerifPtrInfo {
+	if p.seg == nil {
+		return VerifPtrInfo{}
+	}
+	vi := VerifPtrInfo{
+		Valid:        true,
+		Seg:          p.seg.id,
+		Off:          uint32(p.off),
+		LenOrCap:     p.lenOrCap,
+		DataSize:     uint32(p.size.DataSize),
+		PointerCount: p.size.PointerCount,
+		DepthLimit:   uint64(p.depthLimit),
+		Kind:         p.flags.ptrType(),
+	}
+	switch vi.Kind {
+	case structPtrType:
+		vi.ListMember = p.flags.structFlags()&isListMember != 0
+	case listPtrType:
+		vi.Composite = p.flags.listFlags()&isCompositeList != 0
+		vi.BitList = p.flags.listFlags()&isBitList != 0
+	}
+	return vi
+}
